@@ -21,6 +21,13 @@ def tasks(ctx):
     t = LemmaTask("lemma:halt", cc.halt_lemmas, ["(*cpu.CPU).halt", "(*cpu.CPU).checkInterrupts", "(*cpu.CPU).next"])
     t.keep = lambda name: any(k in name for k in (":decision", ":one-cycle", ":cycles", ":then-next-instruction", "canary", ":flow"))
     ts.append(t)
+    # the length of the HALT idle period is "until an enabled interrupt is requested": nothing else may end it - the button-press
+    # callback leaves STOP only, and only halt()/checkInterrupts()/next() write the halt state
+    from props.C05 import halt_writers
+    from props.common import scan_lemma
+    from engine.driver import Task
+    ts.append(Task("(*cpu.CPU).OnInput", "(*cpu.CPU).OnInput"))
+    ts.append(scan_lemma("scan:halt-state-written-only-by-halt-and-the-interrupt-check", halt_writers, ["package cpu (SSA scan)"]))
     return filter_tasks(ts)
 
 
